@@ -646,6 +646,7 @@ func main() {
 	args := hx.ParseArgs()
 	meta := hx.NewMeta("h_boot", args.Seed, args.Tier)
 	devnull, _ := os.OpenFile(os.DevNull, os.O_WRONLY, 0)
+	hx.KeepStderr = os.Stderr
 	os.Stderr = devnull
 	rng := hx.NewRng(args.Seed)
 	meta.Rule = "real bootstrap over a mock transport factory under the hook scheduler: 1-3 listeners (Listen().Async(), 0-2 incoming connections each, optional concurrent Listener.Close), 0-2 client Connects, Shutdown placed by the schedule (uniform random, sticky, Shutdown-as-early-as-possible from a random step); coarse runs (Channel.Close atomic) are replayed step by step in the Coq model, fine runs (every hook a scheduling point) are judged on the final observation; non-trivial = Shutdown ran while some listener's accept loop had not started or a connection was between accept and activation, or raced a Listener.Close; distinct = distinct (scenario, schedule)"
